@@ -23,6 +23,7 @@ import (
 	"github.com/jech/galene/conn"
 	"github.com/jech/galene/diskwriter"
 	"github.com/jech/galene/group"
+	"github.com/jech/galene/token"
 	"github.com/jech/galene/webserver"
 
 	"verif/simrt"
@@ -527,6 +528,23 @@ func (st *pnState) stepJoin(i int, s pnStep) {
 	what := fmt.Sprintf("step %d group.AddClient(%s, username %s)", i, pnQ(gname), pnQ(user))
 	stub := &pnStub{id: fmt.Sprintf("client-%d", i)}
 	creds := group.ClientCredentials{Username: &user, Password: pnWildPw}
+	if s.A%4 == 3 {
+		// the name arrives inside a token (minted earlier by somebody with
+		// the right to do so: maketoken / the API), the client itself types
+		// a harmless one
+		tname := fmt.Sprintf("tkj%d", i)
+		exp := time.Now().Add(time.Hour)
+		tu := user
+		if _, terr := token.Update(&token.Stateful{Token: tname, Group: "g", Username: &tu, Permissions: []string{"present"}, Expires: &exp}, ""); terr == nil {
+			simrt.Reenter()
+			typed := "alice"
+			creds = group.ClientCredentials{Username: &typed, Token: tname}
+			what = fmt.Sprintf("step %d group.AddClient(%s, token carrying username %s)", i, pnQ(gname), pnQ(user))
+			st.c.Count("probe.join_with_token_username", 1)
+		} else {
+			simrt.Reenter()
+		}
+	}
 	g, err := group.AddClient(gname, stub, creds)
 	simrt.Reenter()
 	st.sig = append(st.sig, fmt.Sprintf("join:%v", err == nil))
